@@ -620,6 +620,16 @@ func c15Direct(c *Ctx, r *Rng) {
 }
 
 func init() {
-	campaigns["C06"] = func(c *Ctx) { tqCampaign(c, "C06") }
-	campaigns["C15"] = func(c *Ctx) { tqCampaign(c, "C15") }
+	campaigns["C06"] = func(c *Ctx) {
+		tqCampaign(c, "C06")
+		if c.Replay == "" {
+			c06Real(c, NewRng(c.Seed^0xC06A), "C06")
+		}
+	}
+	campaigns["C15"] = func(c *Ctx) {
+		tqCampaign(c, "C15")
+		if c.Replay == "" {
+			c06Real(c, NewRng(c.Seed^0xC15A), "C15")
+		}
+	}
 }
